@@ -5,6 +5,7 @@ import (
 	"encoding/json"
 	"fmt"
 	"os"
+	"path/filepath"
 	"strconv"
 	"strings"
 	"testing"
@@ -157,7 +158,15 @@ func TestSim(t *testing.T) {
 					continue // one replay file per violation class per worker
 				}
 				minimized[class] = true
-				mp, ms, runs := Minimize(t, prop, seed, res.Plan, res.Sched, class, params, 400, 90*time.Second)
+				// another worker may already have produced a replay for this class
+				if m, _ := filepath.Glob(filepath.Join(replayDir, prop+"-seed*-"+sanitize(class)+".json")); len(m) > 0 {
+					if res.Extra == nil {
+						res.Extra = map[string]interface{}{}
+					}
+					res.Extra["replay."+class] = m[0]
+					continue
+				}
+				mp, ms, runs := Minimize(t, prop, seed, res.Plan, res.Sched, class, params, 900, 120*time.Second)
 				final := RunOne(t, prop, seed, mp, ms, true, params, true)
 				detail := ""
 				for _, v := range final.Violations {
